@@ -46,7 +46,9 @@ type C13Case struct {
 	Pre   bool      `json:"pre,omitempty"` // the documents are open, clean and settled before the burst (every step is a change)
 	// mode "free": any interleaving of the notifications with the two stages of every analysis. Events in order:
 	// -1 = the next notification is sent; k >= 0 = the analysis of step k moves on (first from its start to the
-	// point of publishing, then through publishing to its end)
+	// point of publishing, then through publishing to its end); -2 / -3 = features.diagnostics is switched
+	// off / on again (generated only around analyses of versions that are no longer the latest: the latest
+	// version of every document is analysed while the feature is on)
 	Sched []int `json:"sched,omitempty"`
 	Root  bool  `json:"root,omitempty"` // the server has the documents' folder as workspace; every step is on main.journal
 	// SwitchAt > 0 (mode publish, one document): the server starts with features.diagnostics off; the
@@ -362,6 +364,12 @@ func c13Check(c *C13Case) (ds []ev.Discrepancy, nontrivial bool) {
 		sent := 0
 		var order []int
 		for _, e := range c.Sched {
+			if e == -2 || e == -3 {
+				// the diagnostics feature is switched off (-2) or on again (-3); the settings are pushed
+				// with the notification and in force when it returns
+				_ = h.PushConfiguration(map[string]any{"features": map[string]any{"diagnostics": e == -3}})
+				continue
+			}
 			if e < 0 {
 				if sent < len(c.Steps) {
 					send(sent)
@@ -576,7 +584,14 @@ func c13Run(c *C13Case) []ev.Discrepancy {
 	for _, st := range c.Steps {
 		rep = rep || st.Rev > 0
 	}
-	recC13.Case(nt, mustJSON(c), "mode:"+c.Mode, fmt.Sprintf("burst:%d", len(c.Steps)), fmt.Sprintf("settled-before:%v", c.Pre), fmt.Sprintf("repeated-diagnostics:%v", rep), fmt.Sprintf("feature-switched-on-inside-burst:%v", c.SwitchAt > 0), fmt.Sprintf("close-and-reopen-inside-burst:%v", func() bool {
+	recC13.Case(nt, mustJSON(c), "mode:"+c.Mode, fmt.Sprintf("burst:%d", len(c.Steps)), fmt.Sprintf("settled-before:%v", c.Pre), fmt.Sprintf("repeated-diagnostics:%v", rep), fmt.Sprintf("feature-switched-on-inside-burst:%v", c.SwitchAt > 0), fmt.Sprintf("feature-off-while-overtaken-analyses-run:%v", func() bool {
+		for _, e := range c.Sched {
+			if e == -2 {
+				return true
+			}
+		}
+		return false
+	}()), fmt.Sprintf("close-and-reopen-inside-burst:%v", func() bool {
 		for _, st := range c.Steps {
 			if st.Reopen {
 				return true
@@ -707,6 +722,35 @@ func TestC13Free(t *testing.T) {
 				sent++
 			} else {
 				stage[e]++
+			}
+		}
+		if rapid.IntRange(0, 2).Draw(t, "offwindow") == 0 {
+			// everything is sent and waits at its start; the latest version of every document is analysed
+			// and published; the feature is switched off, some of the overtaken analyses run (they read
+			// "off"), the feature is switched on again. The empty list of an overtaken analysis must not
+			// be the last word.
+			last := map[int]int{}
+			for i, st := range c.Steps {
+				last[st.Doc] = i
+			}
+			var stale []int
+			c.Sched = nil
+			for i := 0; i < n; i++ {
+				c.Sched = append(c.Sched, -1)
+			}
+			for i, st := range c.Steps {
+				if last[st.Doc] == i {
+					c.Sched = append(c.Sched, i, i)
+				} else {
+					stale = append(stale, i)
+				}
+			}
+			if len(stale) > 0 {
+				c.Sched = append(c.Sched, -2)
+				for _, k := range rapid.Permutation(stale).Draw(t, "staleorder")[:rapid.IntRange(1, len(stale)).Draw(t, "nstale")] {
+					c.Sched = append(c.Sched, k, k)
+				}
+				c.Sched = append(c.Sched, -3)
 			}
 		}
 		ds, nt := c13Check(c)
